@@ -111,6 +111,11 @@ def obs_descriptors(case):
     od = {}
     if not case.get('descriptor_none'):
         od['cond'] = gen.as_desc(case['obs'], case.get('container', 'list'))
+    elif len(case['obs']) % 2 == 0:
+        # without a descriptor there is 'one row/column per row in the dataset' (docstring) -
+        # also when the dataset happens to carry an observation descriptor called 'index' with
+        # repeated values (e.g. a trial index within runs); a deterministic half of these cases
+        od['index'] = [i // 2 for i in range(len(case['obs']))]
     if case['folds'] is not None:
         od['fold'] = gen.as_desc(case['folds'], case.get('fold_container', 'list'))
     return od
